@@ -40,6 +40,18 @@ class UClose(U):
         self.closed += 1
 
 
+class UGetattr(U):
+    """aclose exists, but only dynamically: provided through __getattr__ (a delegating proxy)"""
+
+    def __getattr__(self, name):
+        if name == "aclose":
+            return self._do_close
+        raise AttributeError(name)
+
+    async def _do_close(self):
+        self.closed += 1
+
+
 class USend(UClose):
     async def asend(self, value):
         return await self.__anext__()
@@ -80,11 +92,11 @@ class GenU:
 def make_u(kind, items):
     if kind == "gen":
         return GenU(items)
-    return {"close": UClose, "send": USend, "plain": U, "send_noclose": USendNoClose}[kind](items)
+    return {"close": UClose, "close_ga": UGetattr, "send": USend, "plain": U, "send_noclose": USendNoClose}[kind](items)
 
 
 def caps(kind):
-    return {"gen": (True, True), "close": (True, False), "send": (True, True), "plain": (False, False), "send_noclose": (False, True)}[kind]
+    return {"gen": (True, True), "close": (True, False), "close_ga": (True, False), "send": (True, True), "plain": (False, False), "send_noclose": (False, True)}[kind]
 
 
 TOOLS = [("enumerate", lambda h: a.enumerate(h), lambda v: v[1]), ("map", lambda h: a.map(lambda x: x, h), lambda v: v),
@@ -352,7 +364,7 @@ def run_prop(prop, tier, seed):
     rng = random.Random(seed)
     texts, fails = [], 0
     n = 1500 * common.scale(rep) if tier == "quick" else 150000
-    kinds = ["gen", "close", "send", "plain", "send_noclose"]
+    kinds = ["gen", "close", "close_ga", "send", "plain", "send_noclose"]
     dist = {}
     for i in range(n):
         kind = rng.choice(kinds)
